@@ -103,4 +103,17 @@ GROUPS = {
         harnesses=[dict(name=n, complete=True, targets=["OwnedTimerGuard", "SharedDuration", "MaybeGuardedDuration::shared_cloned", "Stopwatch::clear/close"], timeout=600,
                         bound="symbolic total (Option) and spans (u32 seconds + nanos); loop-free; guards built already stopped (no clock)") for n in ['shared_cloned_keeps_total', 'owned_guard_drop_adds_span_once', 'owned_guard_stop_returns_span_and_adds_once', 'owned_guard_discard_adds_nothing', 'owned_guard_overwrite_replaces_total', 'two_live_owned_guards_both_count', 'clear_with_live_owned_guard', 'borrowed_guard_on_shared_stopwatch']],
     ),
+    "core_boxed": dict(
+        crate="metrique-writer-core",
+        prefix="entry::boxed::verif_kani::",
+        modules={"metrique-writer-core/src/entry/boxed.rs": "kani/core/boxed.rs"},
+        target_files="metrique-writer-core/src/entry/boxed.rs",
+        props=["C15"],
+        mem_gb=20,
+        harnesses=[
+            dict(name="box_entry_is_transparent", complete=False, targets=["BoxEntry::write", "EntryWriterToDyn", "EntryWriterFromDyn", "ValueWriterToDyn", "ValueWriterFromDyn"],
+                 covers=1, timeout=900, tier="quick",
+                 bound="one entry: optional timestamp, one metric with 0..=3 symbolic observations written through exact / inexact / take iterators, optional dimension, optional string value"),
+        ],
+    ),
 }
